@@ -25,16 +25,18 @@ def lattice(tier):
                {'name': 'sha2', 'bits': 100}, {'name': 'sha3', 'bits': 512}, {'name': 'md5'}, {'name': 'sha2', 'size': 3},
                # values that EQUAL a documented one without being it (CLI / TOML typing: 256.0, 5.12e2, True)
                {'name': 'sha2', 'bits': 256.0}, {'name': 'sha3', 'bits': 5.12e2}, {'name': 'sha3', 'bits': '384'}, {'name': 'blake2b', 'length': 32.0},
-               {'name': 'blake2b', 'length': True}, {'name': 'sha2', 'bits': 384}, {'name': 'sha3', 'bits': 224}]
+               {'name': 'blake2b', 'length': True}, {'name': 'sha2', 'bits': 384}, {'name': 'sha3', 'bits': 224},
+               # adapters that EXIST but are of another kind (cipher / KDF / chunker named as the hash)
+               {'name': 'aes_gcm'}, {'name': 'chacha20_poly1305'}, {'name': 'scrypt'}, {'name': 'gclmulchunker'}]
     chunking = [None, {'min_length': 8, 'max_length': 64}, {'min_length': 0, 'max_length': 4}, {'min_length': -4, 'max_length': 8},
                 {'min_length': 8.5, 'max_length': 64}, {'min_length': '8', 'max_length': 64}, {'min_length': 65, 'max_length': 64},
                 {'min_length': 1, 'max_length': 1}, {'min_length': 4, 'max_length': 4}, {'min_length': 5, 'max_length': 8},
-                {'name': 'nochunker'}, {'min_length': 8, 'max_length': 64, 'extra': 1}]
+                {'name': 'nochunker'}, {'min_length': 8, 'max_length': 64, 'extra': 1}, {'name': 'sha2'}, {'name': 'blake2b'}, {'name': 'aes_gcm'}]
     ciphers = [None, {'name': 'aes_gcm', 'key_bits': 128.0}, {'name': 'aes_gcm', 'key_bits': 192}, {'name': 'aes_gcm', 'key_bits': 128}, {'name': 'aes_gcm', 'key_bits': 100}, {'name': 'aes_gcm', 'key_bits': 256, 'nonce_bits': 96},
                {'name': 'aes_gcm', 'nonce_bits': 0}, {'name': 'aes_gcm', 'nonce_bits': 64}, {'name': 'chacha20_poly1305'},
-               {'name': 'chacha20_poly1305', 'key_bits': 128}]
+               {'name': 'chacha20_poly1305', 'key_bits': 128}, {'name': 'blake2b'}, {'name': 'sha3'}, {'name': 'gclmulchunker'}]
     kdfs = [dict(FAST), {'name': 'scrypt', 'n': 6, 'r': 1, 'p': 1}, {'name': 'scrypt', 'n': 0, 'r': 1, 'p': 1}, {'name': 'blake2b'},
-            {'name': 'scrypt', 'n': 4, 'r': 0, 'p': 1}, {'name': 'argon'}]
+            {'name': 'scrypt', 'n': 4, 'r': 0, 'p': 1}, {'name': 'argon'}, {'name': 'aes_gcm'}, {'name': 'sha2'}, {'name': 'gclmulchunker'}]
     out = []
     for h in hashing:
         out.append({'hashing': h, 'chunking': {'min_length': 8, 'max_length': 64}, 'cipher': None, 'kdf': FAST, 'encrypted': False})
